@@ -3,6 +3,7 @@
 package main
 
 import (
+	"context"
 	"encoding/binary"
 	"encoding/json"
 	"flag"
@@ -47,6 +48,9 @@ func main() {
 			os.Exit(2)
 		}
 		fmt.Println("selftest ok")
+	case "gcprobe":
+		n, detail := props.GCProbe(16, 250000)
+		fmt.Printf("PROBE observed=%d detail=%s\n", n, detail)
 	case "list":
 		fmt.Println(strings.Join(props.IDs(), " "))
 	default:
@@ -236,7 +240,55 @@ func supervise(args []string) int {
 		st.runPass(ps, nw)
 		passCases[ps.name] = ps.cases
 	}
+	if p.ChildProbe != "" {
+		st.childProbe(self, p.ChildProbe, p.ChildProbeSignature, work)
+	}
 	return st.conclude(*tier, kn, start, passCases)
+}
+
+// childProbe runs `verifcheck <sub>` in a process of its own (a probe that may
+// end in a fatal runtime error) and records what it observed under the given
+// signature. Output goes to a file: a pipe would lose the runtime's dump.
+func (st *runState) childProbe(self, sub, sig, work string) {
+	out := filepath.Join(work, "probe-"+sub+".log")
+	f, err := os.Create(out)
+	if err != nil {
+		return
+	}
+	ctx, cancel := context.WithTimeout(context.Background(), 5*time.Minute)
+	defer cancel()
+	cmd := exec.CommandContext(ctx, self, sub)
+	cmd.Stdout, cmd.Stderr = f, f
+	runErr := cmd.Run()
+	f.Close()
+	b, _ := os.ReadFile(out)
+	text := string(b)
+	observed, detail := false, ""
+	for _, line := range strings.Split(text, "\n") {
+		switch {
+		case strings.HasPrefix(line, "PROBE observed="):
+			if !strings.HasPrefix(line, "PROBE observed=0 ") {
+				observed, detail = true, strings.TrimPrefix(line, "PROBE ")
+			} else if detail == "" {
+				detail = strings.TrimPrefix(line, "PROBE ")
+			}
+		case strings.Contains(line, "found pointer to free object"), strings.Contains(line, "marked free object"), strings.Contains(line, "unexpected fault address"), strings.Contains(line, "unexpected signal"):
+			if !observed {
+				observed, detail = true, "the probe process died: "+trimTo(line, 200)
+			}
+		}
+	}
+	st.agg.Counters["child-probe:"+sub+":runs"]++
+	if runErr != nil && !observed && ctx.Err() == nil {
+		observed, detail = true, "the probe process died: "+trimTo(text, 300)
+	}
+	if observed {
+		st.agg.Counters["child-probe:"+sub+":observed"]++
+		st.agg.SigCounts[sig]++
+		st.agg.Violations = append(st.agg.Violations, props.Violation{Idx: -1, Sig: sig, Detail: "child-process probe `verifcheck " + sub + "`: " + detail, Case: "probe " + sub})
+	} else {
+		st.note("child probe %s observed nothing: %s", sub, trimTo(detail, 200))
+	}
 }
 
 func (st *runState) runPass(ps *pass, nw int) {
